@@ -29,6 +29,7 @@ import (
 	"strconv"
 	"strings"
 	"sync"
+	"sync/atomic"
 	"time"
 
 	"go4.org/jsonconfig"
@@ -196,11 +197,16 @@ func Cleanup() {
 	}
 }
 
+// close closes the store under the watchdog (Close of a buffer flushes: it can block like any op; a
+// store that does not close is abandoned) and removes its files.
 func (in *interp) close() {
-	if in.kv != nil {
-		hk.Guard(func() string { in.kv.Close(); return "" })
-		in.kv = nil
+	if in.kv != nil && !in.hung {
+		kv := in.kv
+		if watch(func() string { kv.Close(); return "" }) == "hang" {
+			in.hung = true
+		}
 	}
+	in.kv = nil
 	if in.dir != "" {
 		os.RemoveAll(in.dir)
 		in.dir = ""
@@ -210,6 +216,7 @@ func (in *interp) close() {
 // NewExec returns a fresh interpreter (only one is live per process: the previous one is closed and
 // its temporary files are removed).
 func NewExec() func(w []string) string {
+	replayMode.Store(true) // only hk.Main's -replay path comes through here
 	Cleanup()
 	in := &interp{}
 	liveMu.Lock()
@@ -218,25 +225,56 @@ func NewExec() func(w []string) string {
 	return in.guarded
 }
 
-const hangAfter = 120 * time.Second
+// hangAfter is how long one call into the implementation may take before it is declared hung; after the
+// first hang of a run the later ones are declared after hangAfterSeen (the run is failing anyway, and
+// a defect that blocks usually blocks in many cases).
+const (
+	hangAfter       = 30 * time.Second
+	hangAfterSeen   = 5 * time.Second
+	hangAfterReplay = 8 * time.Second // -replay runs one short case (the check's shrinker calls it many times)
+)
 
-// guarded runs one op; a panic answers "panic", an op that does not return answers "hang".
-func (in *interp) guarded(w []string) string {
-	if in.hung {
-		return "hang"
-	}
+var (
+	hangSeen   atomic.Bool
+	replayMode atomic.Bool
+)
+
+// watch runs f – a call into the implementation – on its own goroutine: a panic answers "panic", no
+// return within the time limit answers "hang" (the goroutine is abandoned). EVERY call into the
+// stores goes through watch: ops, Close/Cleanup, the generator's own scans, the probes.
+func watch(f func() string) string {
 	ch := make(chan string, 1)
-	go func() { ch <- hk.Guard(func() string { return in.exec(w) }) }()
-	t := time.NewTimer(hangAfter)
+	go func() { ch <- hk.Guard(f) }()
+	d := hangAfter
+	if replayMode.Load() {
+		d = hangAfterReplay
+	}
+	if hangSeen.Load() {
+		d = hangAfterSeen
+	}
+	t := time.NewTimer(d)
 	defer t.Stop()
 	select {
 	case out := <-ch:
 		return out
 	case <-t.C:
-		in.hung = true
-		in.kv = nil // do not touch the stuck store again (its files are still removed)
+		hangSeen.Store(true)
 		return "hang"
 	}
+}
+
+// guarded runs one op; a panic answers "panic", an op that does not return answers "hang" and the
+// store is abandoned (every later op of the case answers "hang" at once; its files are still removed).
+func (in *interp) guarded(w []string) string {
+	if in.hung {
+		return "hang"
+	}
+	out := watch(func() string { return in.exec(w) })
+	if out == "hang" {
+		in.hung = true
+		in.kv = nil // do not touch the stuck store again
+	}
+	return out
 }
 
 // openEngine goes through sorted.NewKeyValue, the constructor the server configuration uses.
